@@ -98,6 +98,7 @@ impl<'a> MessageParser<'a> {
                                 packet.packet_header(),
                                 &mut packet,
                             )?;
+                            ensure_packet_consumed(&mut packet)?;
                             self.messages.push(SignaturePacket::Signature { signature });
                             // Keep original is_nested - the outer Signed message inherits it.
                             self.current = MessageParserState::Start {
@@ -115,6 +116,7 @@ impl<'a> MessageParser<'a> {
                                 packet.packet_header(),
                                 &mut packet,
                             )?;
+                            ensure_packet_consumed(&mut packet)?;
                             self.messages.push(SignaturePacket::Ops { signature });
                             // Keep original is_nested - the outer Signed message inherits it.
                             self.current = MessageParserState::Start {
@@ -283,6 +285,16 @@ impl<'a> MessageParser<'a> {
             }
         }
     }
+}
+
+/// A Signature or One-Pass Signature packet in front of a message must consist of exactly the
+/// parsed packet, as for packets read through the `PacketParser`.
+fn ensure_packet_consumed<R: std::io::BufRead>(packet: &mut R) -> Result<()> {
+    let size = packet.drain()?;
+    if size > 0 {
+        return Err(crate::errors::Error::PacketTooLarge { size });
+    }
+    Ok(())
 }
 
 /// Drop PKESK and SKESK with versions that are not aligned with the encryption container
